@@ -500,7 +500,7 @@ class CallMixin(object):
     ev = Event(kind, label if label else fn_t, [to_u(a, st) for a in args],
                {k: to_u(v, st) for k, v in kw.items()},
                to_u(star, st) if star is not None else None,
-               to_u(dstar, st) if dstar is not None else None)
+               to_u(dstar, st) if dstar is not None else None, heap=st.heap)
     idx = st.evidx
     st.evidx += 1
     tag = '%s@%d' % (st.seg or 'entry', idx)
